@@ -5,13 +5,15 @@ CONSTANTS
   CfgNums = {1, 2}
   StateNums = {1, 2}
   DbVers = {1, 2}
-  InitCaches = {0, 11, 21}
+  InitCaches = {0, 21}
   MaxLoads = 1
   MaxQ = 2
   MaxResolving = 1
   IdCases = {"upper"}
   HonestModes = {FALSE}
   AnswerKinds = {"ok", "err", "close"}
+  Restores = {12, 21}
+  DecSpawn = {TRUE, FALSE}
   NormalisedRemove = TRUE
 CONSTRAINT QBound
 INVARIANT TypeOK
@@ -25,6 +27,7 @@ INVARIANT NotifiedWithNewNumber
 INVARIANT RemovedMeansGone
 INVARIANT NoUpdatesWhileRemoving
 INVARIANT ConnectsToLatest
+INVARIANT CallbackNeverRaises
 PROPERTY ProcessesCurrentRecord
 PROPERTY NoWorkAfterShutdown
 CHECK_DEADLOCK FALSE
